@@ -43,6 +43,11 @@ type xfCase struct {
 	Fail         map[string]xfFail `json:"fail,omitempty"` // request offset (decimal) -> status
 	StatFail     *xfFail           `json:"stat_fail,omitempty"`
 	SrcFailAfter int               `json:"src_fail_after,omitempty"` // > 0: the ReadFrom source fails after that many bytes (value-1)
+	// scripted peer: the READ/WRITE requests at these offsets are answered in this order (a request listed later is held
+	// until the ones before it have been answered; a short pause follows each), whatever order they arrive in
+	Order []int64 `json:"reply_order,omitempty"`
+	// request server: the handler's backend breaks at a byte offset (xfer_fault.go)
+	HFault *xfHFault `json:"handler_fault,omitempty"`
 }
 
 func (cs xfCase) Text() string {
@@ -59,6 +64,12 @@ func (cs xfCase) Text() string {
 		cs.FileLen, cs.Off, cs.Len, cs.Window, cs.ShortCap, xfB(cs.NoPerm), fk, sf, cs.SrcFailAfter)
 	if cs.Open != "" {
 		t += fmt.Sprintf(" open=%s pre%d", cs.Open, cs.PreLen)
+	}
+	if len(cs.Order) > 0 {
+		t += fmt.Sprintf(" ord%v", cs.Order)
+	}
+	if cs.HFault != nil {
+		t += " hf=" + cs.HFault.String()
 	}
 	return t
 }
@@ -191,6 +202,9 @@ type xfOutcome struct {
 	Closes    int
 	Timeouts  int
 	LeftOpen  int
+	Applied   []xfChunk // handler fault: the WriteAt calls the handler stored
+	FaultHits int       // handler fault: handler calls that met it
+	Ordered   int       // scripted peer: how many of the reply_order entries were answered in their turn
 }
 
 type xfPeerHold struct {
@@ -363,7 +377,19 @@ func xfExec(cs xfCase, real *xfReal, srcDir string, hold *xfPeerHold) (out xfOut
 			o.Fail = cs.failMap()
 			o.StatFail = cs.StatFail
 		})
+		peer.SetOrder(cs.Order)
 		peer.ResetLog()
+	}
+	if cs.HFault != nil {
+		if real == nil || real.Mem == nil {
+			out.SetupErr = errors.New("a handler fault needs the request server")
+			return
+		}
+		if err := real.Mem.SetFault(cs.HFault); err != nil {
+			out.SetupErr = err
+			return
+		}
+		defer real.Mem.SetFault(nil)
 	}
 	var sink bytes.Buffer
 	buf := make([]byte, cs.Len)
@@ -412,7 +438,19 @@ func xfExec(cs xfCase, real *xfReal, srcDir string, hold *xfPeerHold) (out xfOut
 	}
 	if peer != nil {
 		out.Log = peer.Log()
+		out.Ordered = peer.SetOrder(nil)
 		peer.SetBehaviour(func(o *xfPeerOpts) { o.Window = 1; o.Fail = nil; o.StatFail = nil })
+	}
+	if cs.HFault != nil {
+		// the concurrent paths may have requests in flight when the call returns: the request server answers in request
+		// order, so after one more round trip every READ/WRITE of the transfer has met the handler (and the fault)
+		if ok, _ := xfGuardK(kase, func() { cli.Lstat(path) }); !ok {
+			out.Hang = true
+			return
+		}
+		out.FaultHits = real.Mem.FaultHits()
+		out.Applied = real.Mem.TakeApplied()
+		real.Mem.SetFault(nil)
 	}
 	if ok, _ := xfGuardK(kase, func() {
 		out.OffAfter, out.OffErr = f.Seek(0, io.SeekCurrent)
